@@ -180,10 +180,14 @@ func (v *V) globalValue(st *State, o *types.Var) (Val, bool) {
 			scratch := st.clone()
 			n0 := len(scratch.pc)
 			e := &Env{v: v, st: scratch, info: gi.pi.info, pkg: gi.pi.types, bound: map[string]Val{}}
-			v.dry++ // initialisation-time arithmetic: no obligations of the function under verification
+			e.inQuant = 1 // no naming of intermediate terms: the value must be a closed term, valid on every path
+			v.dry++       // initialisation-time arithmetic: no obligations of the function under verification
 			r := func() Val { defer func() { v.dry-- }(); return v.coerce(e, e.eval(init), o.Type()) }()
+			// definitions of the fresh constants of intermediate results (floating-point operations)
+			// become global facts: they are definitional, hence valid on every path
 			for _, c := range scratch.pc[n0:] {
-				st.define(c)
+				v.nGdef++
+				v.axioms = append(v.axioms, fmt.Sprintf("(! %s :named gdef%d)", c, v.nGdef))
 			}
 			val, ok = r, true
 		}
